@@ -119,6 +119,11 @@ impl EventSource for Timer {
             if registration.token != token {
                 return Ok(PostAction::Continue);
             }
+            // An expiry collected before this timer was unregistered and registered again (same token)
+            // is stale: the current arming is still waiting in the wheel.
+            if registration.wheel.borrow().contains(registration.counter) {
+                return Ok(PostAction::Continue);
+            }
             let new_deadline = match callback(*deadline, &mut ()) {
                 TimeoutAction::Drop => return Ok(PostAction::Remove),
                 TimeoutAction::ToInstant(instant) => instant,
@@ -256,6 +261,10 @@ impl TimerWheel {
         // There is an item in the heap, this unwrap cannot blow
         let data = self.heap.pop().unwrap();
         Some((data.counter, data.token))
+    }
+
+    pub(crate) fn contains(&self, counter: u32) -> bool {
+        self.heap.iter().any(|data| data.counter == counter)
     }
 
     pub(crate) fn next_deadline(&self) -> Option<std::time::Instant> {
